@@ -161,13 +161,18 @@ fn run_ops(cfg: &fastcgi_server::Config, full: &[u8], gate0: usize, ops: &[Vec<u
                 res.push(nums(p.stream_buffer()));
             },
             6 => {
-                p.set_stream(None).expect("None is always allowed");
+                // [6, k, 2]: the plain hand-off of the parser API: no set_stream(None), no skipping
+                if a2 != 2 {
+                    p.set_stream(None).expect("None is always allowed");
+                }
                 // [6, k, 1]: like Request::close, do not parse at all when already at a record boundary
-                let (out2, code) = if a2 == 1 && p.is_record_boundary() {
+                let (out2, code) = if (a2 == 1 || a2 == 2) && p.is_record_boundary() {
                     // close writes the pending replies first
                     let o = p.output_buffer().to_vec();
                     p.consume_output(o.len());
                     (o, 0)
+                } else if a2 == 2 {
+                    (Vec::new(), 5)
                 } else {
                     to_boundary(&mut p, wire, &mut pos)
                 };
